@@ -15,7 +15,7 @@ CHECKS = {
          "Every ordered pair of ~390 (thorough ~1000) unit spellings (all units, prefixed, products/quotients, cancelling spellings) under + - and to, plus plain-number adoption in both operand orders: Ok iff the independent table gives equal base dimensions, with exact SI value and the cast result expressed in the target unit.",
          "Independent unit table (tables.rs); syntactically cancelling spellings (m/m) and prefixed words the tool rejects are not judged.", "3 C02"),
  "C03": ("exploration", E1 + ": commensurable unit pairs, prefixes, powers, composites vs SI scales, plus table-free conversion laws on the real code",
-         "All ordered pairs per commensurability class x magnitudes, every prefix spelling, powers -3..3, 2-4 factor composites against the table; round-trip, via-unit and scaling laws evaluated on the real code only (no table).",
+         "All ordered pairs per commensurability class x magnitudes, every prefix spelling, powers -3..3, every prefix symbol crossed with every power -3..3 (as source, as target and prefix-to-prefix), 2-4 factor composites against the table; round-trip, via-unit and scaling laws evaluated on the real code only (no table).",
          "Independent unit table for the direct oracle; the laws need none. Words misread by the unit lexer are left to C05.", "3 C03"),
  "C04": ("exploration", E1 + ": products/quotients/powers of quantities vs SI value and dimension arithmetic",
          "All pairs of 39 quantity spellings under * and / (either side parenthesised), all triples over a core, (q)^n for n=-3..3 for every documented unit; SI value and base dimensions must equal the reference evaluation of the tree.",
@@ -24,7 +24,7 @@ CHECKS = {
          "Every name x every prefix spelling, every 2-name concatenation, short 3-name concatenations and all unit expressions of <=3 (4) items through both entry points; an accepted word must mean one of its valid segmentations over the independent table, bare documented names their own (standard) meaning.",
          "Independent table; nine recorded findings (logos lexer drops characters; three test-pinned definitions) are listed in known_findings.txt.", "3 C05"),
  "C06": ("exploration", E1 + ": operator sequences x bracketings x blank layouts vs the documented precedence table",
-         "All operator sequences up to length 5 over + - * / ^ with every bracketing (Catalan), minimal and full parentheses, redundant parentheses, function-argument position, `to` chains, and blank layouts (all combinations for <=2 operators, uniform + 1/2-slot deviations beyond) are evaluated and compared with the reference evaluation of the tree the documented grammar prescribes.",
+         "All operator sequences up to length 5 over + - * / ^ with every bracketing (Catalan), minimal and full parentheses, redundant parentheses, function-argument position, `to` chains, and blank layouts (all combinations of homogeneous gaps for <=2 operators, uniform + 1/2-slot deviations beyond, deviations including gaps that mix spaces and tabs) are evaluated and compared with the reference evaluation of the tree the documented grammar prescribes.",
          "Trees outside the statement's domain (non-integer or >1000 exponents) are counted, not judged; + - and `to` keep >=1 blank as the statement says.", "3 C06"),
  "C07": ("exploration", E1 + ": the literal grammar up to length 7/8 plus a size ladder vs an own decimal reader",
          "Every literal of the grammar up to length 7 (thorough 8) over a reduced digit alphabet, all ten digits to length 4 (6), plus 20..300-digit ladder literals, read by both the library parser and the query path and compared with an independent reader.",
@@ -36,7 +36,7 @@ CHECKS = {
          "Every p/q of a grid (negatives, integers, halves, boundary +-10^-k) through floor/ceil/round/round(x,n), n=-6..6, units carried, wrong arities; compared with exact integer definitions; both build profiles so debug-only assertions count.",
          "Non-integer digits arguments are not judged.", "3 C10"),
  "C09": ("exploration", E1 + ": magnitudes x scale pairs x chains x non-alone positions vs the affine formulas",
-         "12 magnitudes x 36 scale-spelling pairs, all chains up to length 4, and every placement of a scale that is not alone with power one (powers, products, quotients) - the latter must be refused or treated as an interval.",
+         "12 magnitudes x 36 scale-spelling pairs, all chains up to length 4, every ordered pair of 21 prefixed scale words (m k n G milli kilo on K, degC, degF) x 5 magnitudes and chains through a prefixed scale, and every placement of a scale that is not alone with power one (powers, products, quotients) - the latter must be refused or treated as an interval.",
          "The affine formulas are written out in the harness.", "3 C09"),
  "C11": ("exploration", E1 + ": token soups, unicode strings and 1/2-edit neighbourhoods of seeds; no panic/abort/hang, located errors; both build profiles and the real binary on a stride",
          "All token sequences <=3 (4) over 44 tokens x joiner patterns, all unicode strings <=4 (5) over 30 code points, every 1-edit (thorough 2-edit) of 60 seeds, in release and debug-assertion builds; each result must display or be an error with an in-bounds char-boundary range that the diagnostic renderer accepts; worker processes attribute aborts and hangs to the input.",
@@ -48,7 +48,7 @@ CHECKS = {
          "Commutativity over pairs of ~125 literal quantities and ~770 facts, a-a, a/a for all, associativity and distributivity over a core of triples; both sides compared in SI normal form within one Db instance.",
          "Independent unit table for the SI normal form; plain-number adoption and zero divisors are outside the laws' preconditions.", "3 C13"),
  "C14": ("model_checking", "stateless depth-first schedule exploration of the real index build under a controlled scheduler at tantivy's layout-determining seams (vendored tantivy with gates), plus session histories mem / disk-first / disk-reopen / disk-rebuild",
-         "Every assignment of documents to indexing workers (symmetry-reduced), every order of equally sized segments, merge timing and merge input order is enumerated on the real Db::in_memory()/Db::open() over reduced data sets of shipped constants that tie for the ambiguous probes; every session of every execution must answer the probe set like the reference execution (and own-word probes must find their constant); on-disk layouts are read back from the real index; the full shipped data runs under corner schedules.",
+         "Every assignment of documents to indexing workers (symmetry-reduced), every order of equally sized segments, merge timing and merge input order is enumerated on the real Db::in_memory()/Db::open() over reduced data sets of shipped constants that tie for the ambiguous probes; every session of every execution must answer the probe set like the reference execution (and own-word probes must find their constant); on-disk layouts are read back from the real index; the full shipped data runs under corner schedules, each followed by every single deviation at every tie-order and merge-timing point (so a build that leaves several equal-sized segments is explored in every segment order).",
          "Layout depends on scheduling only through the four gated seams (argued in DESIGN 2.6, cross-checked by reading real on-disk layouts back); vendored tantivy = registry 0.19.2 + vendor/tantivy-gates.patch (checked in setup); hook H1 (asset directory seam) supplies the reduced data sets.", "3 C14"),
  "C15": ("fault_enumeration", "exhaustive crash-point (and torn-write) enumeration of the real start-up under an LD_PRELOAD fault injector, crossed with prior directory states and followed by crash-free starts",
          "The real Db::open() is killed before every one of its file-system mutations (every point; thorough also torn writes and second crashes) from each prior directory state; after each crash: meta.json current => index complete (checked with tantivy independently), and two crash-free starts must answer the probe set exactly like a fresh in-memory database. Every listed prior state (absent, other version, other data, missing/truncated/garbage metadata incl. every proper prefix, missing index directory) is also started crash-free.",
@@ -60,10 +60,10 @@ CHECKS = {
          "CBOR (and JSON for rationals) round trips; ids pairwise distinct and equal to the documented ids pinned in the harness; decoded units are the same statics.",
          "serde_cbor/serde_json are faithful carriers.", "3 C17"),
  "C19": ("exploration", E1 + ": query family x {default,--exact} through the real binary vs text rebuilt from library results",
-         "Value shapes x unit shapes x error/multi-result/fact compositions, both modes, run through the `any` binary built from /repo and compared line by line with the stated printing rule applied to the library's results.",
-         "Decimal rendering is taken from the library (C08 judges it); no exit code is required.", "3 C19"),
+         "Value shapes x unit shapes x error/multi-result/fact compositions, every documented unit alone / squared / as denominator / in products and quotients / prefixed, 2- and 3-digit exponents, both modes, run through the `any` binary built from /repo and compared line by line with the stated printing rule applied to the library's results; every printed unit is additionally re-read with the harness's own vocabulary table and must denote the computed unit (SI scale and dimensions), with a blank iff it has a numerator part and no plural form when the value is one.",
+         "Decimal rendering is taken from the library (C08 judges it); no exit code is required; two display-only names (`fl oz`, `g` for gforce) are aliased in the re-reader.", "3 C19"),
  "C18": ("model_checking", "explicit-state search over operation histories executed on the real Db (state = history, canonicalised by probe-set answers) plus exhaustive expression enumeration",
-         "All histories of length <=3 (4) over 12 operations on one shared Db: every step must answer as on a fresh Db and leave the probe-set answers unchanged; all expressions with <=3 operands over literals and fact phrases with describe on/off.",
+         "All histories of length <=3 (4) over 18 operations (9 queries incl. a word shared by several constants, a full word set containing it, and a three-result query failing in the middle; describe on/off) on one shared Db: every step must answer as on a fresh Db and leave the probe-set answers unchanged; 175 multi-result queries whose computed results must all be described whatever fails around them; all expressions with <=3 operands over literals and fact phrases with describe on/off.",
          "The model is the implementation itself (no abstraction): every explored trace is an implementation trace.", "3 C18"),
 }
 
